@@ -1,4 +1,5 @@
 import PcbV.Lemmas.TokRound
+import PcbV.Lemmas.TokCanon
 import PcbV.Lemmas.TokTables
 /-
   C17 — Tokenising and listing are consistent.
@@ -8,19 +9,37 @@ import PcbV.Lemmas.TokTables
   conversion of non-integer literals as the parameter `Codec` (property C07 is about that part).
 
   The grammar of the round-trip theorems is the item language `PcbV.TokL.Item` (Lemmas/TokRound.lean):
-  blanks, string literals, separators, operator symbols, keywords of the table (ELSE → `:ELSE` and
-  WHILE → `WHILE+` included), names, number literals (through the codec contract; the integer
-  shapes are discharged here), jump numbers, and a closing REM or ' comment.  `wfT` / `wfL` are the
-  "canonical separators" side conditions: what the tokeniser needs (a keyword or name is not followed by a
-  name character, a number not by something that continues it, numbers stand where numbers are allowed, …)
-  and what the lister needs (no letter or digit directly before a keyword, an explicit blank or a
-  no-blank character after it, …).
+  blanks (space, TAB), string literals with arbitrary bytes (closed, or left open by the end of the line),
+  separators, operator symbols, keywords of the table (one- and two-byte tokens, ELSE → `:ELSE` and
+  WHILE → `WHILE+` included, keywords ending in `$` or `(`), names, raw digits where no number is allowed
+  (OPTION BASE 1), number literals (through the codec contract; the integer, &H and &O shapes are discharged
+  here, and for point / exponent / `!` `#` literals the lexical part is: `float_literal_wellformed` needs only
+  the pair  readFloat txt = some tok,  showFloat tok = some txt), jump numbers and lists / ranges of them
+  (`,` and `-` keep jump-number mode), DATA with unquoted and quoted items, and a closing REM or ' comment with
+  an arbitrary tail.  `wfT` / `wfL` are the "canonical separators" side conditions: what the tokeniser needs
+  (a keyword or name is not followed by a name character, a number not by something that continues it,
+  numbers stand where numbers are allowed, …) and what the lister needs (no letter or digit directly before a
+  keyword, an explicit blank or a no-blank character after it, …); `wfTb` / `wfLb` decide them.
 
-  `roundtrip_*_partial`: the gap to the full statement is the part of the grammar that is not an `Item`:
-  DATA statements, TAB / LF blanks, characters the tokeniser passes raw in no-number mode (digits after a
-  name as in `OPTION BASE 1`, `.`), the FN / USR exception of the blank-before-keyword rule, control
-  characters inside strings and comments, line number 0, and texts longer than 255 characters.  The
-  correspondence run and the oracle of props/c17.py cover those on generated lines.
+  `roundtrip_statement` / `roundtrip_line` (+ `roundtrip_line_zero`) are the round trip over that grammar.
+  What the grammar excludes is, item by item, NOT round-trip in the real code (each with a theorem):
+    * number-token lead bytes 0B..0F, 11..1D, 1F inside strings, comments, DATA: the lister prints them as
+      numbers (documented GW-BASIC behaviour)            — `lead_byte_in_string_counterexample`
+    * LF as a blank: listed as LF CR, the CR ends the line on re-entry — `line_feed_counterexample`
+    * `?`, lower-case keywords / names, `GO TO`, `GO  TO`, `GO SUB`: listed as PRINT, upper case, GOTO, GOSUB;
+      the text changes but the tokens do not: `respelled_line_normalises` (general) and
+      `question_mark_counterexample`, `lower_case_counterexample`, `go_to_counterexample`
+    * `%` behind a number (swallowed) and a blank behind an octal literal (belongs to the literal): text
+      changes, tokens do not — `percent_suffix_counterexample`, `octal_blank_swallowed_counterexample`
+    * a blank between a number and a digit joins them, a keyword glued to a name is a name, … : these are
+      the follow conditions in `wfT`, not separate exclusions.
+  Remaining hypotheses of the theorems, stated explicitly: the listed text is at most 255 characters (the
+  lister cuts there), the first token byte is not TAB (the lister then omits the blank behind the line
+  number), the line number is 1..65529 (0: `roundtrip_line_zero`), the first non-blank character of the
+  statement is not a digit (it would join the line number).  Not expressible and left to correspondence +
+  oracle: a keyword directly behind FN / USR without a blank (the lister's exception to the blank-before-
+  keyword rule; no well-formed statement has it) and non-integer literals whose text↔MBF conversion is the
+  codec parameter (property C07).  The former `_partial` names are kept as corollaries.
 -/
 namespace PcbV.C17
 open PcbV PcbV.Gen PcbV.Gen.Tokens PcbV.Tok PcbV.Lst PcbV.TokL
@@ -125,20 +144,28 @@ theorem tokenise_list_items (old : Bool) (t : Table) (cd : Codec) (is : List Ite
    lst_items old t cd is out _ (by have := wfL_cost old t cd is out hL; omega) hL⟩
 
 /-- ROUND TRIP (statement body): for a tokenised statement line `t = encAll is` built from well-formed
-    items with canonical separators, `list t` is the canonical text and `tokenise (list t) = t`;
-    `_partial`: see the header for the part of the grammar that is not covered by `Item` -/
-theorem roundtrip_statement_partial (t : Table) (cd : Codec) (is : List Item)
+    items with canonical separators, `list t` is the canonical text and `tokenise (list t) = t`.
+    The item grammar is the whole statement grammar of the property; see the header for what is excluded
+    because the real code does not round-trip it (with a counterexample theorem each). -/
+theorem roundtrip_statement (t : Table) (cd : Codec) (is : List Item)
     (hT : wfT false t cd ⟨false, true, false⟩ is) (hL : wfL false t cd [] is) (hlen : (textAll is).length ≤ 255) :
     ∃ txt, listStatement false t cd (encAll is) = .ok txt ∧ txt = textAll is
       ∧ tokLoop false t cd (txt.length + 1) ⟨false, true, false⟩ txt = .ok (encAll is) :=
   ⟨textAll is, listStatement_items false t cd is hL hlen, rfl,
    tok_items false t cd is _ _ (by have := wfT_length false t cd is _ hT; omega) hT⟩
 
+/-- the first-round name of `roundtrip_statement` (then over a narrower `Item`), kept as a corollary -/
+theorem roundtrip_statement_partial (t : Table) (cd : Codec) (is : List Item)
+    (hT : wfT false t cd ⟨false, true, false⟩ is) (hL : wfL false t cd [] is) (hlen : (textAll is).length ≤ 255) :
+    ∃ txt, listStatement false t cd (encAll is) = .ok txt ∧ txt = textAll is
+      ∧ tokLoop false t cd (txt.length + 1) ⟨false, true, false⟩ txt = .ok (encAll is) :=
+  roundtrip_statement t cd is hT hL hlen
+
 /-- ROUND TRIP (program line): `detokenise_line` of the stored record of line `n` gives
     "<n> <text>", and `tokenise_line` of that text gives the record back (with the tokeniser's
     placeholder link bytes C0 DE); every number literal of the line therefore keeps its token, i.e. its
     value and type -/
-theorem roundtrip_line_partial (t : Table) (cd : Codec) (a b n : Nat) (hab : ¬ (a = 0 ∧ b = 0)) (h1 : 1 ≤ n)
+theorem roundtrip_line (t : Table) (cd : Codec) (a b n : Nat) (hab : ¬ (a = 0 ∧ b = 0)) (h1 : 1 ≤ n)
     (h2 : n ≤ 65529) (is : List Item) (hT : wfT false t cd ⟨false, true, false⟩ is) (hL : wfL false t cd [] is)
     (hlen : (textAll is).length ≤ 255) (htab : (encAll is).head? ≠ some 9)
     (hj : jumpFollowOK (32 :: textAll is) = true) :
@@ -146,6 +173,15 @@ theorem roundtrip_line_partial (t : Table) (cd : Codec) (a b n : Nat) (hab : ¬ 
       ∧ tokeniseLine false t cd txt = .ok ([0, 192, 222, n % 256, n / 256 % 256] ++ encAll is) :=
   ⟨_, detokLine_items false t cd a b n hab h1 (by omega) is hL hlen htab,
    tokeniseLine_items false t cd n h1 h2 is hT hj⟩
+
+/-- the first-round name of `roundtrip_line`, kept as a corollary -/
+theorem roundtrip_line_partial (t : Table) (cd : Codec) (a b n : Nat) (hab : ¬ (a = 0 ∧ b = 0)) (h1 : 1 ≤ n)
+    (h2 : n ≤ 65529) (is : List Item) (hT : wfT false t cd ⟨false, true, false⟩ is) (hL : wfL false t cd [] is)
+    (hlen : (textAll is).length ≤ 255) (htab : (encAll is).head? ≠ some 9)
+    (hj : jumpFollowOK (32 :: textAll is) = true) :
+    ∃ txt, detokLine false t cd (a :: b :: n % 256 :: n / 256 % 256 :: encAll is) = .ok (some (n, txt))
+      ∧ tokeniseLine false t cd txt = .ok ([0, 192, 222, n % 256, n / 256 % 256] ++ encAll is) :=
+  roundtrip_line t cd a b n hab h1 h2 is hT hL hlen htab hj
 
 /-- the codec contract is satisfiable: an integer literal in number mode is a well-formed `num` item
     for both machines, whatever the float conversion pair is -/
@@ -236,6 +272,179 @@ theorem old_question_mark_jump_counterexample :
     ∧ detokLine true advanced cd0 [192, 222, 10, 0, 139, 32, 65, 32, 205, 32, 145, 32, 14, 5, 0] = .ok (some (10, listed))
     ∧ tokeniseLine true advanced cd0 listed = .ok [0, 192, 222, 10, 0, 139, 32, 65, 32, 205, 32, 145, 32, 22]
     ∧ tokeniseLine false advanced cd0 line = .ok [0, 192, 222, 10, 0, 139, 32, 65, 32, 205, 32, 145, 32, 22] := by
+  decide +kernel
+
+/-! ## second round: wider literal classes, respelled text, what is not round-trip -/
+
+/-- point / exponent / `!` `#` literals: the lexical scan is proved, so such a literal is a well-formed `num`
+    item as soon as the codec pair maps its text to a T_SINGLE / T_DOUBLE token and that token back to the text
+    (`read (show v) = v`; the numeric content of the pair is property C07) -/
+theorem float_literal_wellformed (old : Bool) (t : Table) (cd : Codec) (s : St) (out txt : Bytes) (lead : Nat)
+    (pay R E : Bytes) (hshape : floatText txt = true) (hstart : headIs (fun c => isDigit c || c == 46) txt = true)
+    (hnotint : ¬ (txt.all isDigit = true ∧ readBase 10 txt ≤ 32767))
+    (hread : cd.readFloat txt = some (lead :: pay)) (hshow : cd.showFloat (lead :: pay) = some txt)
+    (hlead : (lead = tTSINGLE ∧ pay.length = 4) ∨ (lead = tTDOUBLE ∧ pay.length = 8))
+    (han : s.an = true) (haj : s.aj = false)
+    (hf : (match txt.getLast? with
+           | some l => l == 33 || l == 35
+           | none => false) = true ∨ decFollowOK R = true) :
+    okT false t cd s (.num txt lead pay) R False ∧ okL old t cd out (.num txt lead pay) E False := by
+  constructor
+  · simp only [okT]
+    refine ⟨?_, float_tokNumber cd txt (lead :: pay) R hshape hstart hnotint hread hf⟩
+    obtain ⟨c, txt', rfl, hc⟩ := headIs_ex hstart
+    refine ⟨c, txt', rfl, Or.inr ⟨han, haj, ?_⟩⟩
+    simpa using hc
+  · simp only [okL]
+    refine ⟨?_, float_listNumber old cd txt lead pay E hlead hshow⟩
+    rcases hlead with ⟨rfl, _⟩ | ⟨rfl, _⟩ <;> decide
+
+/-- &H literals are well-formed `num` items wherever they stand (also in jump-number mode) -/
+theorem hex_literal_wellformed (old : Bool) (t : Table) (cd : Codec) (s : St) (out : Bytes) (v : Nat) (h : v < 65536)
+    (R E : Bytes) (hf : hexFollowOK R = true) :
+    okT false t cd s (.num (38 :: 72 :: showBase 16 v) tTHEX [v % 256, v / 256 % 256]) R False
+    ∧ okL old t cd out (.num (38 :: 72 :: showBase 16 v) tTHEX [v % 256, v / 256 % 256]) E False := by
+  constructor
+  · simp only [okT]
+    exact ⟨⟨38, _, rfl, Or.inl rfl⟩, by simpa using (number_token_classes_hex old cd v h R).1 hf⟩
+  · simp only [okL]
+    exact ⟨by decide, (number_token_classes_hex old cd v h E).2⟩
+
+/-- &O literals likewise (what follows must not be an octal digit or a blank: a blank belongs to the literal) -/
+theorem oct_literal_wellformed (old : Bool) (t : Table) (cd : Codec) (s : St) (out : Bytes) (v : Nat) (h : v < 65536)
+    (R E : Bytes) (hf : octFollowOK R = true) :
+    okT false t cd s (.num (38 :: 79 :: showBase 8 v) tTOCT [v % 256, v / 256 % 256]) R False
+    ∧ okL old t cd out (.num (38 :: 79 :: showBase 8 v) tTOCT [v % 256, v / 256 % 256]) E False := by
+  constructor
+  · simp only [okT]
+    exact ⟨⟨38, _, rfl, Or.inl rfl⟩, by simpa using (number_token_classes_oct old cd v h R).1 hf⟩
+  · simp only [okL]
+    exact ⟨by decide, (number_token_classes_oct old cd v h E).2⟩
+
+/-- RESPELLED TEXT: a line typed with keywords in any letter case (`kwAs`), `?` for PRINT and the
+    `GO TO` / `GO  TO` / `GO SUB` forms tokenises to the tokens of its canonical form; the lister prints the
+    canonical form, and that re-enters as the identical token line.  (The typed text itself is not what is
+    listed — see the counterexamples below — but nothing is lost in the tokens.) -/
+theorem respelled_line_normalises (t : Table) (cd : Codec) (is : List Item)
+    (hT : wfT false t cd ⟨false, true, false⟩ is)
+    (hTc : wfT false t cd ⟨false, true, false⟩ (is.map canon)) (hLc : wfL false t cd [] (is.map canon))
+    (hlen : (textAll (is.map canon)).length ≤ 255) :
+    tokLoop false t cd ((textAll is).length + 1) ⟨false, true, false⟩ (textAll is) = .ok (encAll (is.map canon))
+    ∧ listStatement false t cd (encAll (is.map canon)) = .ok (textAll (is.map canon))
+    ∧ tokLoop false t cd ((textAll (is.map canon)).length + 1) ⟨false, true, false⟩ (textAll (is.map canon))
+        = .ok (encAll (is.map canon)) := by
+  refine ⟨?_, listStatement_items false t cd _ hLc hlen, ?_⟩
+  · rw [encAll_canon]
+    exact tok_items false t cd is _ _ (by have := wfT_length false t cd is _ hT; omega) hT
+  · exact tok_items false t cd _ _ _ (by have := wfT_length false t cd _ _ hTc; omega) hTc
+
+/-- ROUND TRIP for line number 0: the tokeniser keeps the blank behind `0`, the lister drops one -/
+theorem roundtrip_line_zero (t : Table) (cd : Codec) (a b : Nat) (hab : ¬ (a = 0 ∧ b = 0)) (is : List Item)
+    (hT : wfT false t cd ⟨false, true, false⟩ is) (hL : wfL false t cd [] is)
+    (hlen : (textAll is).length ≤ 255) (htab : (encAll is).head? ≠ some 9)
+    (hj : jumpFollowOK (32 :: textAll is) = true) :
+    detokLine false t cd (a :: b :: 0 :: 0 :: 32 :: encAll is) = .ok (some (0, 48 :: 32 :: textAll is))
+    ∧ tokeniseLine false t cd (48 :: 32 :: textAll is) = .ok ([0, 192, 222, 0, 0, 32] ++ encAll is) := by
+  constructor
+  · have ht : ((encAll is).head? == some 9) = false := by simpa using htab
+    have hs : showBase 10 0 = [48] := by decide
+    unfold detokLine
+    simp [hab, ht, hs, listStatement_items false t cd is hL hlen]
+  · have hr := readLineNum_showBase 0 (by omega) (32 :: textAll is) hj
+    have hs : showBase 10 0 = [48] := by decide
+    rw [hs] at hr
+    have hT' : wfT false t cd ⟨false, true, false⟩ (.sp :: is) := ⟨trivial, hT⟩
+    have := tok_items false t cd (.sp :: is) ⟨false, true, false⟩ ((32 :: textAll is).length + 1)
+      (by have := wfT_length false t cd is _ hT; simp; omega) hT'
+    simp only [textAll, encAll, Item.text, Item.enc, List.cons_append, List.nil_append] at this
+    unfold tokeniseLine
+    simp only [List.cons_append, List.nil_append] at hr
+    simp only [List.length_cons] at this
+    simp [List.dropWhile, isBlank, tokLineNumber, hr, this, prepend, lo, hi]
+
+/-- the spellings the tokeniser accepts for GOTO / GOSUB: one blank + TO + a non-name character, two or more
+    blanks + TO + anything, one blank + SUB + anything (letters in any case) -/
+theorem go_to_forms (tt oo x s u b : Nat) (n : Nat) (R : Bytes) (ht : upper tt = 84) (ho : upper oo = 79)
+    (hs : upper s = 83) (hu : upper u = 85) (hb : upper b = 66) (hx : isNameChar x = false) :
+    wideGo (32 :: tt :: oo :: x :: R) = some (kwGoto, x :: R, false)
+    ∧ wideGo (32 :: 32 :: (List.replicate n 32 ++ tt :: oo :: R)) = some (kwGoto, R, true)
+    ∧ wideGo (32 :: s :: u :: b :: R) = some (kwGosub, R, true) :=
+  ⟨wideGo_to1 tt oo x R ht ho hx, wideGo_toN n tt oo R ht ho, wideGo_sub s u b R hs hu hb⟩
+
+/-- a second worked line: TAB, DATA with quoted and unquoted items, line-number list and range, raw digit
+    behind a name, a string left open:  `ON X GOTO 10,20, 30:LIST 10-20:<TAB>OPTION BASE 1:DATA 1,"a:b", c d:A$="x` -/
+def exItems2 : List Item :=
+  [.kw [79, 78] [149], .sp, .ident [88], .sp, .kw [71, 79, 84, 79] [137], .sp, .jump 10, .punct 44, .jump 20,
+   .punct 44, .sp, .jump 30, .punct 58,
+   .kw [76, 73, 83, 84] [147], .sp, .jump 10, .op 45 234, .jump 20, .punct 58, .tab,
+   .kw [79, 80, 84, 73, 79, 78] [184], .sp, .ident [66, 65, 83, 69], .sp, .raw 49, .punct 58,
+   .data [32, 49, 44, 34, 97, 58, 98, 34, 44, 32, 99, 32, 100], .punct 58,
+   .ident [65], .punct 36, .op 61 231, .strOpen [120]]
+
+example : wfT false advanced cd0 ⟨false, true, false⟩ exItems2 := wfTb_sound _ _ _ _ _ (by decide +kernel)
+example : wfL false advanced cd0 [] exItems2 := wfLb_sound _ _ _ _ _ (by decide +kernel)
+
+/-- a respelled line: `for i=1 to 9:? i:go to 10` and its canonical form `FOR I=1 TO 9:PRINT I:GOTO 10` -/
+def exSpelled : List Item :=
+  [.kwAs [102, 111, 114] [70, 79, 82] [130], .sp, .ident [73], .op 61 231, .num [49] 18 [], .sp,
+   .kwAs [116, 111] [84, 79] [204], .sp, .num [57] 26 [], .punct 58, .qmark, .sp, .ident [73], .punct 58,
+   .goTo [103, 111, 32, 116, 111] [71, 79, 84, 79] [137], .sp, .jump 10]
+
+example : wfTb false advanced cd0 ⟨false, true, false⟩ exSpelled = true
+    ∧ wfTb false advanced cd0 ⟨false, true, false⟩ (exSpelled.map canon) = true
+    ∧ wfLb false advanced cd0 [] (exSpelled.map canon) = true := by decide +kernel
+
+/-! ### what is not round-trip in the real code (model = code on these inputs: correspondence run) -/
+
+/-- a number-token lead byte inside a string literal: tokens `10 A$="<0F>A"` list as `10 A$="65"`, which re-enters
+    as different tokens (the lister prints such bytes as numbers even inside literals) -/
+theorem lead_byte_in_string_counterexample :
+    detokLine false advanced cd0 [192, 222, 10, 0, 65, 36, 231, 34, 15, 65, 34]
+      = .ok (some (10, [49, 48, 32, 65, 36, 61, 34, 54, 53, 34]))
+    ∧ tokeniseLine false advanced cd0 [49, 48, 32, 65, 36, 61, 34, 54, 53, 34]
+      = .ok [0, 192, 222, 10, 0, 65, 36, 231, 34, 54, 53, 34] := by decide +kernel
+
+/-- LF as a blank: `10 A<LF>B` keeps the LF in the tokens, the lister prints LF CR, and the CR ends the line
+    on re-entry: the B is lost -/
+theorem line_feed_counterexample :
+    tokeniseLine false advanced cd0 [49, 48, 32, 65, 10, 66] = .ok [0, 192, 222, 10, 0, 65, 10, 66]
+    ∧ detokLine false advanced cd0 [192, 222, 10, 0, 65, 10, 66] = .ok (some (10, [49, 48, 32, 65, 10, 13, 66]))
+    ∧ tokeniseLine false advanced cd0 [49, 48, 32, 65, 10, 13, 66] = .ok [0, 192, 222, 10, 0, 65, 10] := by
+  decide +kernel
+
+/-- `10 ? 1` lists as `10 PRINT 1` (text changed), which re-enters as the same tokens -/
+theorem question_mark_counterexample :
+    tokeniseLine false advanced cd0 [49, 48, 32, 63, 32, 49] = .ok [0, 192, 222, 10, 0, 145, 32, 18]
+    ∧ detokLine false advanced cd0 [192, 222, 10, 0, 145, 32, 18] = .ok (some (10, [49, 48, 32, 80, 82, 73, 78, 84, 32, 49]))
+    ∧ tokeniseLine false advanced cd0 [49, 48, 32, 80, 82, 73, 78, 84, 32, 49] = .ok [0, 192, 222, 10, 0, 145, 32, 18] := by
+  decide +kernel
+
+/-- `10 print a` lists as `10 PRINT A` -/
+theorem lower_case_counterexample :
+    tokeniseLine false advanced cd0 [49, 48, 32, 112, 114, 105, 110, 116, 32, 97] = .ok [0, 192, 222, 10, 0, 145, 32, 65]
+    ∧ detokLine false advanced cd0 [192, 222, 10, 0, 145, 32, 65] = .ok (some (10, [49, 48, 32, 80, 82, 73, 78, 84, 32, 65])) := by
+  decide +kernel
+
+/-- `10 GO  TO 5` and `10 GO TO 5` list as `10 GOTO 5`; `GO TO` at the very end of a line is not GOTO at all -/
+theorem go_to_counterexample :
+    tokeniseLine false advanced cd0 [49, 48, 32, 71, 79, 32, 32, 84, 79, 32, 53] = .ok [0, 192, 222, 10, 0, 137, 32, 14, 5, 0]
+    ∧ tokeniseLine false advanced cd0 [49, 48, 32, 71, 79, 32, 84, 79, 32, 53] = .ok [0, 192, 222, 10, 0, 137, 32, 14, 5, 0]
+    ∧ detokLine false advanced cd0 [192, 222, 10, 0, 137, 32, 14, 5, 0] = .ok (some (10, [49, 48, 32, 71, 79, 84, 79, 32, 53]))
+    ∧ tokeniseLine false advanced cd0 [49, 48, 32, 71, 79, 32, 84, 79] = .ok [0, 192, 222, 10, 0, 71, 79, 32, 204] := by
+  decide +kernel
+
+/-- `10 A=1%` lists as `10 A=1` (the % is swallowed); same tokens on re-entry -/
+theorem percent_suffix_counterexample :
+    tokeniseLine false advanced cd0 [49, 48, 32, 65, 61, 49, 37] = .ok [0, 192, 222, 10, 0, 65, 231, 18]
+    ∧ detokLine false advanced cd0 [192, 222, 10, 0, 65, 231, 18] = .ok (some (10, [49, 48, 32, 65, 61, 49]))
+    ∧ tokeniseLine false advanced cd0 [49, 48, 32, 65, 61, 49] = .ok [0, 192, 222, 10, 0, 65, 231, 18] := by
+  decide +kernel
+
+/-- `10 A=&O7 :B` : the blank behind the octal literal belongs to it and is not kept; lists as `10 A=&O7:B` -/
+theorem octal_blank_swallowed_counterexample :
+    tokeniseLine false advanced cd0 [49, 48, 32, 65, 61, 38, 79, 55, 32, 58, 66] = .ok [0, 192, 222, 10, 0, 65, 231, 11, 7, 0, 58, 66]
+    ∧ detokLine false advanced cd0 [192, 222, 10, 0, 65, 231, 11, 7, 0, 58, 66]
+        = .ok (some (10, [49, 48, 32, 65, 61, 38, 79, 55, 58, 66])) := by
   decide +kernel
 
 end PcbV.C17
